@@ -427,18 +427,24 @@ def suite_socketpair(ctx):
                     b.close()
             t = threading.Thread(target=producer)
             t.start()
-            deadline = time.monotonic() + 10
+            deadline = time.monotonic() + 20
             want_bytes = sum(len(f) for f in frames[:cut_at])
+            t_done = None
             while time.monotonic() < deadline:
                 try:
                     f = conn.wait_frame(timeout=0.05, exception=True)
                 except TimeoutException:
-                    if not t.is_alive():
+                    if t.is_alive():
+                        continue
+                    if t_done is None:
+                        t_done = time.monotonic()
+                    # the producer is done: stop once everything it sent has come out, or after 2 s of patience for a starved receiver thread
+                    # (on a loaded machine the thread may lag; a frame that is really lost is still missing after 2 s)
+                    have = sum(len(x) for x in got) if kname == 'stream' else len(got)
+                    if have >= (want_bytes if kname == 'stream' else cut_at) or time.monotonic() - t_done > 2.0:
                         break
                     continue
                 got.append(f)
-                if kname != 'stream' and len(got) >= cut_at and not t.is_alive():
-                    pass
             t.join()
             # drain what is left, then the timeout must be honest
             t0 = time.monotonic()
@@ -464,7 +470,7 @@ def suite_socketpair(ctx):
                 s.fail(dict(rec, observed='queue size %d after draining' % conn.rxqueue.qsize(), required='0'))
             t0 = time.monotonic()
             conn.close()
-            if conn.rxthread.is_alive() or time.monotonic() - t0 > 1.0:
+            if conn.rxthread.is_alive() or time.monotonic() - t0 > 5.0:
                 s.fail(dict(rec, observed='thread alive=%s after close (%.2f s)' % (conn.rxthread.is_alive(), time.monotonic() - t0), required='close() terminates the receiver thread'))
             for what, fn in (('wait_frame', lambda: conn.wait_frame(timeout=5, exception=False)), ('send', lambda: conn.send(b'\x01'))):
                 t0 = time.monotonic()
@@ -475,7 +481,7 @@ def suite_socketpair(ctx):
                     pass
                 except Exception as e:  # noqa
                     s.fail(dict(rec, observed='%s raised %s' % (what, type(e).__name__), required='RuntimeError'))
-                if time.monotonic() - t0 > 0.5:
+                if time.monotonic() - t0 > 3.0:
                     s.fail(dict(rec, observed='%s blocked %.2f s on a closed connection' % (what, time.monotonic() - t0), required='raises instead of blocking'))
             # reopen: frames sent after reopening are delivered
             if kname == 'dgram':
@@ -511,10 +517,10 @@ def suite_socketpair(ctx):
             closer = threading.Thread(target=conn.close, daemon=True)
             t0 = time.monotonic()
             closer.start()
-            closer.join(3)
+            closer.join(8)
             rec = {'site': 'SocketConnection.close with unread backlog', 'input': '%s backlog=%d' % (kname, sent_n), 'kind': kname}
             if closer.is_alive() or (conn.rxthread is not None and conn.rxthread.is_alive()):
-                s.fail(dict(rec, observed='close() still blocked after 3 s (receiver thread alive=%s)' % conn.rxthread.is_alive(), required='close() always terminates the receiver thread'))
+                s.fail(dict(rec, observed='close() still blocked after 8 s (receiver thread alive=%s)' % conn.rxthread.is_alive(), required='close() always terminates the receiver thread'))
                 conn.exit_requested = True
                 try:
                     while True:
@@ -550,7 +556,7 @@ def suite_socketpair(ctx):
             w.start()
             time.sleep(delay)
             feed(b'\x12\x34\x56')
-            w.join(2)
+            w.join(5)
             rec = {'site': cname + '.wait_frame(timeout=None)', 'input': 'frame arrives after %.2f s' % delay, 'kind': cname}
             if box.get('frame') != b'\x12\x34\x56':
                 s.fail(dict(rec, observed='returned %r / raised %s / still waiting=%s' % (box.get('frame'), box.get('exc'), w.is_alive()),
